@@ -109,7 +109,9 @@ type Diameter struct {
 	Protocol string `yaml:"protocol" valid:"required"`
 	HostIPv4 string `yaml:"hostIPv4,omitempty" valid:"required,host"`
 	Port     int    `yaml:"port,omitempty" valid:"required,port"`
-	Tls      *Tls   `yaml:"tls,omitempty" valid:"optional"`
+	// the Diameter servers and clients always use TLS and read the
+	// certificate paths unconditionally
+	Tls *Tls `yaml:"tls,omitempty" valid:"required"`
 }
 
 type Cgf struct {
@@ -141,6 +143,9 @@ func (s *Sbi) validate() (bool, error) {
 		if result, err := tls.validate(); err != nil {
 			return result, err
 		}
+	} else if s.Scheme == "https" {
+		// the https listener reads the certificate and key paths unconditionally
+		return false, errors.New("Invalid sbi.tls: required when sbi.scheme is https")
 	}
 
 	result, err := govalidator.ValidateStruct(s)
